@@ -179,6 +179,52 @@ theorem reader_every_schedule_final (P : Params) (hB : 0 < P.B) (sched : Nat →
   have := reader_final P hB hr hf
   exact ⟨hr, hf, this.2.1, this.1⟩
 
+/-! ## The limit on the consumer side (not part of C13's statement; stated, not hidden)
+
+Full-strength wish: *"the reader thread always ends"*, also when the consumer stops draining the
+queue (network raises inside `_predict_generator`, generator closed early). -/
+
+/-- in every state of the extended system from which nothing can move, the reader thread has ended -/
+def ReaderAlwaysEnds (P : Params) : Prop :=
+  ∀ s, ReachA P s → (∀ s', ¬ StepA P s s') → s.p = .done
+
+/-- what is provable: without the abort event it is `reader_maximal_run_final` (every `Reach`able
+    stuck state is final, in particular `p = .done`) -/
+theorem reader_always_ends_partial (P : Params) (hB : 0 < P.B) {s : St} (h : Reach P s)
+    (hmax : ∀ s', ¬ Step P s s') : s.p = .done := by
+  apply Classical.byContradiction
+  intro hne
+  have hnf : ¬ isFinal s := fun hf => hne hf.1
+  obtain ⟨s', hs⟩ := reader_no_deadlock P hB h hnf
+  exact hmax s' hs
+
+/-- capacity 1, two frames: the consumer goes away before taking anything -/
+def Pabort : Params := ⟨1, 1, 0, 2, none, fun i => ⟨i, 0, 8, 8⟩⟩
+
+/-- **Counterexample** (replayed on the implementation by `harness/c13.py`, `consumer_abort_limit`):
+    after the consumer is gone the reader fills the queue and is then blocked in `put` forever —
+    the thread stays alive (it is non-daemon in production) and the marker is never put. -/
+theorem reader_always_ends_counterexample : ¬ ReaderAlwaysEnds Pabort := by
+  intro h
+  let s0 : St := init Pabort
+  let s1 : St := abortC s0
+  let s2 : St := ⟨.putting 0 (Pabort.pay 0), [], .finished, [], [], []⟩
+  let s3 : St := ⟨.reading 1, [.frame (Pabort.pay 0)], .finished, [], [], []⟩
+  let s4 : St := ⟨.putting 1 (Pabort.pay 1), [.frame (Pabort.pay 0)], .finished, [], [], []⟩
+  have r1 : ReachA Pabort s1 := .step .init (.abort rfl)
+  have r2 : ReachA Pabort s2 := .step r1 (.step (.prod rfl))
+  have r3 : ReachA Pabort s3 := .step r2 (.step (.prod rfl))
+  have r4 : ReachA Pabort s4 := .step r3 (.step (.prod rfl))
+  have stuck : ∀ s', ¬ StepA Pabort s4 s' := by
+    intro s' st
+    cases st with
+    | step st =>
+      cases st with
+      | prod e => have e' : (none : Option St) = some s' := e; cases e'
+      | cons e => have e' : (none : Option St) = some s' := e; cases e'
+    | abort hc => cases hc
+  exact absurd (h s4 r4 stuck) (by decide)
+
 /-! ## Non-vacuity -/
 
 /-- capacity 1, batch 2, frames 1…5, read failure at 4 (positions carry distinct payloads) -/
